@@ -32,6 +32,10 @@ void UncompressedFile::read(char * s, std::streamsize n) {
     /* mutex lock */
     std::unique_lock<std::mutex> lock(m_mutex);
 
+    /* a request that reaches beyond the buffered data admits the writer up to its end, whatever the buffer size is */
+    m_requestedEnd = n + m_tellg;
+    tellgChanged.notify_all();
+
     /* wait until there is sufficient data */
     tellpChanged.wait(lock, [&] {
         return
@@ -39,6 +43,7 @@ void UncompressedFile::read(char * s, std::streamsize n) {
         (n + m_tellg <= m_tellp) ||
         (n + m_tellg > m_fileSize);
     });
+    m_requestedEnd = 0;
 
     /* handle read behind eof */
     if (n + m_tellg > m_fileSize) {
@@ -107,7 +112,8 @@ void UncompressedFile::write(const char * s, std::streamsize n) {
     tellgChanged.wait(lock, [&] {
         return
         m_abort ||
-        ((m_tellp - m_tellg) < m_bufferSize);
+        ((m_tellp - m_tellg) < m_bufferSize) ||
+        (m_tellp < m_requestedEnd);
     });
 
     /* write data */
@@ -203,7 +209,8 @@ void UncompressedFile::write(const std::shared_ptr<LogContainer> & logContainer)
     tellgChanged.wait(lock, [&] {
         return
         m_abort ||
-        ((m_tellp - m_tellg) < m_bufferSize);
+        ((m_tellp - m_tellg) < m_bufferSize) ||
+        (m_tellp < m_requestedEnd);
     });
 
     /* close a partly filled log container, so that the appended one continues at the put position */
